@@ -196,6 +196,33 @@ Fixpoint gc_typed (mapnew : gtype -> gtype) (c : codec) (t : gtype) {struct c} :
   | _ => stores_ok c t
   end.
 
+(* all pointer stores Read performs into the object it is handed, through record
+   fields, union branches and custom codecs (offsets from the start of the object) *)
+Fixpoint obj_stores (c : codec) (t : gtype) (base : Z) {struct c} : list Z :=
+  match c with
+  | CRecord fs =>
+      match underlying t with
+      | TStruct _ _ gfs =>
+          (fix go (l : list (codec * option nat)) {struct l} : list Z :=
+             match l with
+             | [] => []
+             | (fc, Some j) :: l' =>
+                 match nth_error gfs j with
+                 | Some gf => obj_stores fc (gf_type gf) (base + nth j (field_offsets gfs 0) 0)
+                 | None => []
+                 end ++ go l'
+             | (_, None) :: l' => go l'
+             end) fs
+      | _ => []
+      end
+  | CUnion cs =>
+      (fix go (l : list codec) {struct l} : list Z :=
+         match l with [] => [] | x :: l' => obj_stores x t base ++ go l' end) cs
+  | CUnionOne c' _ => obj_stores c' t base
+  | CCustom _ c' => obj_stores c' t base
+  | _ => map (Z.add base) (ptr_stores c)
+  end.
+
 (* ---- predicted allocation sites (model observable for the correspondence) -------- *)
 
 (* every type the decoder may hand to ReadBuf.Alloc while reading with c into t:
